@@ -75,6 +75,7 @@ def exhaustive(tier):
     # every position)
     import itertools
     strs = ["".join(t) for n in range(5) for t in itertools.product("abq", repeat=n)]
+    strs += [x + "\n" for x in strs if len(x) <= 3] + ["\nab", "a\nb", "ab\n\n", "ab\r", "ab\x00", "ab ", " ab"]
     for sp in ({"t": "str", "alphabet": "ab", "order": ["alphabet"]},
                {"t": "str", "alphabet": "ba", "len": ["eq", 3], "order": ["len", "alphabet"]},
                {"t": "str", "substr": "ab", "order": ["substr"]},
@@ -83,6 +84,16 @@ def exhaustive(tier):
                {"t": "str", "alphabet": "abq", "substr": "qa", "len": ["min", 3], "order": ["len", "substr", "alphabet"]}):
         for x in strs:
             yield {"spec": sp, "value": x, "src": "conforming", "applied": None}
+    # a fixed float value next to a bound that coincides with it (the value comparison is tolerant, the bounds are exact)
+    import math
+    for v in (1.0, 9.0, 0.25, -2.5, 1e15, 3.14159):
+        for extra in ({"min": v}, {"max": v}, {"min": v, "max": v}, {"max": v, "precision": 2}, {"min": v, "precision": 2},
+                      {"precision": 2}, {}):
+            sp = dict({"t": "float", "value": v}, **extra)
+            sp["order"] = [k for k in ("min", "max", "precision") if k in sp]
+            for w in (v, math.nextafter(v, math.inf), math.nextafter(v, -math.inf), v * (1 + 2e-13), v * (1 - 2e-13),
+                      v + 0.004, v - 0.004, v + 0.03, v - 0.03, v + 1.0, v - 1.0):
+                yield {"spec": sp, "value": w, "src": "conforming", "applied": None}
     # enumerations (every alternative a constant) x the same scalars, bare and as list elements
     import decimal
     import fractions
